@@ -9,7 +9,10 @@ import c01, c09
 
 def derived_shapes():
     a, b = A(0), A(1)
-    return [('derived/' + k, ('Term', (k, a, b))) for k in ('Instance', 'Property', 'InstanceProperty', 'EquivalenceRetrospective')] + \
+    sets = [('derived/Instance/set-subject', ('Term', ('Instance', ('SetExtension', [a]), b))), ('derived/InstanceProperty/set-both', ('Term', ('InstanceProperty', ('SetExtension', [a, b]), ('SetIntension', [b])))),
+            ('derived/Property/set-predicate', ('Term', ('Property', a, ('SetIntension', [b])))), ('derived/Instance/nested-sugar', ('Term', ('Instance', ('Instance', a, b), a))),
+            ('derived/EquivalenceRetrospective/stmt-operands', ('Term', ('EquivalenceRetrospective', ('Inheritance', a, b), ('EquivalencePredictive', b, a))))]
+    return sets + [('derived/' + k, ('Term', (k, a, b))) for k in ('Instance', 'Property', 'InstanceProperty', 'EquivalenceRetrospective')] + \
            [('derived/nested', ('Term', ('Implication', ('Instance', a, b), ('Property', b, ('Word', N(2)))))),
             ('derived/sentence', ('Sentence', 'Judgement', ('InstanceProperty', a, b), ('Present',), (1.0, 0.9)))]
 
@@ -19,7 +22,8 @@ def path(engine, ctx, params):
     spec = params['spec']
     names = c01.make_names(it, ctx, fmt, spec)
     sspec = subst_names(spec, names)
-    v = build_narsese(it, sspec)                       # constructors desugar Instance/Property/...
+    v = build_narsese(it, desugar(sspec))              # expected value: built from PRIMITIVE constructors only (documented desugaring)
+    v_sugar = build_narsese(it, sspec) if params['name'].startswith('derived/') else None      # the derived constructors themselves
     kw = keyword_table(it, fmt)
     surface = sspec if params['name'].startswith('derived/') else value_to_spec(v)
     toks = narsese_tokens_surface(kw, surface)
@@ -35,6 +39,7 @@ def path(engine, ctx, params):
     elif r2.variant != 'Ok': verdict = 'lexical-or-fold-error'
     elif r1.f[0].variant != r2.f[0].variant or not eq(r1.f[0], r2.f[0]): verdict = 'pipelines-disagree'
     elif r1.f[0].variant != v.variant or not eq(r1.f[0], v): verdict = 'differs-from-value'
+    elif v_sugar is not None and not eq(v_sugar, v): verdict = 'derived-constructor-differs-from-desugared-form'
     m = ctx.model()
     cn = c01.concrete_names(names, m); ctext = concretize(ctx, text, m)
     if verdict == 'ok':
@@ -46,10 +51,11 @@ def path(engine, ctx, params):
 def confirm(v, oracle):
     from framework import strip_all
     a = oracle.ask('parse', v['fmt'], hexs(v['text'])); b = oracle.ask('lex_fold', v['fmt'], hexs(v['text']))
-    base = oracle.ask('roundtrip', v['fmt'], narsese_tokens(v['spec']))
+    base = oracle.ask('roundtrip', v['fmt'], narsese_tokens(desugar(v['spec'])))
     na = strip_all(a[1]) if a[0] == 'ok' else ['panic']; nb = strip_all(b[1]) if b[0] == 'ok' else ['panic']
     want = ['Ok', base[1]['value']] if base[0] == 'ok' else None
-    bad = not (na == nb == want)
+    sugar = oracle.ask('roundtrip', v['fmt'], narsese_tokens(v['spec']))
+    bad = not (na == nb == want) or (sugar[0] == 'ok' and base[0] == 'ok' and sugar[1]['value'] != base[1]['value'])
     return {'confirmed': bad, 'why': 'native pipelines agree with the value',
             'replay': {'op': 'lex_fold', 'args': [v['fmt'], hexs(v['text'])], 'compare_with': {'op': 'parse', 'args': [v['fmt'], hexs(v['text'])]}, 'text': show(v['text']), 'expected': want},
             'what': '%s text %r: enum parse = %s; lexical+fold = %s; value = %s' % (v['fmt'], show(v['text']), json.dumps(na, ensure_ascii=False)[:110], json.dumps(nb, ensure_ascii=False)[:110], json.dumps(want, ensure_ascii=False)[:90])}
@@ -71,7 +77,7 @@ def main(tier, seed):
     shapes = [(nm, ('Term', t)) for nm, t in depth1_terms()] + derived_shapes() + [(nm, ('Term', t)) for nm, t in nested_terms()] + c10.image_shapes()[:4]
     st = ('Inheritance', A(0), A(1))
     ss = sentences(st); ts = tasks(st)
-    shapes += (ss[::6] + ts[::4]) if quick else (ss + ts)
+    shapes += ([x for x in ss if '/Eternal/' in x[0] or x[0].startswith('sent/Judgement') and x[0].endswith('/1')] + ts[::3]) if quick else (ss + ts)
     for fmt in FORMATS:
         plist = []
         for nm, sp in shapes:
